@@ -26,6 +26,30 @@ fn write(fmt: &str, dom: &rbx_dom_weak::WeakDom, roots: &[Ref]) -> Result<Vec<u8
     }
 }
 
+struct FailAfter(usize);
+impl std::io::Write for FailAfter {
+    fn write(&mut self, b: &[u8]) -> std::io::Result<usize> {
+        if self.0 == 0 {
+            return Err(std::io::Error::new(std::io::ErrorKind::Other, "sink full"));
+        }
+        let n = b.len().min(self.0);
+        self.0 -= n;
+        Ok(n)
+    }
+    fn flush(&mut self) -> std::io::Result<()> {
+        Ok(())
+    }
+}
+
+fn write_into<W: std::io::Write>(fmt: &str, dom: &rbx_dom_weak::WeakDom, roots: &[Ref], w: W) -> Result<(), String> {
+    match fmt {
+        "bin-lz4" => rbx_binary::Serializer::new().compression_type(CompressionType::Lz4).serialize(w, dom, roots).map_err(|e| e.to_string()),
+        "bin-none" => rbx_binary::Serializer::new().compression_type(CompressionType::None).serialize(w, dom, roots).map_err(|e| e.to_string()),
+        "bin-zstd" => rbx_binary::Serializer::new().compression_type(CompressionType::Zstd).serialize(w, dom, roots).map_err(|e| e.to_string()),
+        _ => rbx_xml::to_writer(w, dom, roots, crate::rt::xml_options(XmlMode::Unknown).0).map_err(|e| e.to_string()),
+    }
+}
+
 fn read(fmt: &str, bytes: &[u8]) -> Result<rbx_dom_weak::WeakDom, String> {
     if fmt == "xml" {
         rbx_xml::from_reader(bytes, crate::rt::xml_options(XmlMode::Unknown).1).map_err(|e| e.to_string())
@@ -157,6 +181,41 @@ fn case(rep: &mut Report, seed: u64, index: u64, table: &mut BTreeMap<String, St
             }
         }
         let (_, out) = first.unwrap();
+        // a serialization that FAILS (sink refuses after k bytes; a tree the writer rejects) must leave nothing behind:
+        // the next save of the same tree on this thread gives the bytes it gave before
+        if let Ok(b1) = &out {
+            let mut br = Rng::derive(seed ^ 0x5eed, "c07-build", index * 16);
+            let built = spec::build(spec, ALL_BUILD_MODES[0], &mut br);
+            let roots: Vec<Ref> = sel.iter().map(|i| built.refs[*i]).collect();
+            for k in [0usize, b1.len() / 3, b1.len().saturating_sub(1)] {
+                let _ = catch(|| write_into(fmt, &built.dom, &roots, FailAfter(k)));
+                let _ = catch(|| {
+                    // a tree the binary writer rejects (wrong type for a known property), written and refused
+                    let bad = rbx_dom_weak::WeakDom::new(rbx_dom_weak::InstanceBuilder::new("DataModel").with_child(
+                        rbx_dom_weak::InstanceBuilder::new("Part").with_property("Name2", Variant::Int32(1)).with_property("Anchored", Variant::String("no".into())),
+                    ));
+                    let r = bad.root().children().to_vec();
+                    write(fmt, &bad, &r)
+                });
+                rep.count("fault.failed-save-then-save");
+                match catch(|| write(fmt, &built.dom, &roots)) {
+                    Ok(Ok(again)) if &again == b1 => {}
+                    Ok(Ok(again)) => {
+                        rep.violation(
+                            &format!("C07:state-left-by-failed-save:{}", if *fmt == "xml" { "xml" } else { "binary" }),
+                            &format!("{}: after a save that failed at byte {} the same tree serializes to {} bytes that differ from the {} bytes written before", fmt, k, again.len(), b1.len()),
+                            replay.clone(),
+                            J::Null,
+                        );
+                        break;
+                    }
+                    _ => {
+                        rep.violation(&format!("C07:save-fails-after-failed-save:{}", fmt), "a save fails after an earlier failed save", replay.clone(), J::Null);
+                        break;
+                    }
+                }
+            }
+        }
         match &out {
             Ok(b1) => {
                 table.insert(format!("{}/{}", index, fmt), format!("ok:{:016x}", crate::rng::fnv64(b1)));
